@@ -156,9 +156,12 @@ def worker(job):
         elif form == "to_bits":
             src = "x = PrivVal(I[0])\nbits = x.to_bits(%d)\nr = LinComb.from_bits(bits)\nnb = len(bits)\n" % n
         else:
-            src = "x = PrivVal(I[0])\nx.assert_positive(%d)\nr = x\nnb = %d\n" % (n, n)
+            # the width positionally or by keyword, with and without the caller's own message
+            call = rnd.choice(["x.assert_positive(%d)", "x.assert_positive(%d)", "x.assert_positive(bits=%d)", "x.assert_positive(%d, 'too wide')",
+                               "x.assert_positive(%d, err='too wide')", "x.assert_positive(err='too wide', bits=%d)"]) % n
+            src = "x = PrivVal(I[0])\n%s\nr = x\nnb = %d\n" % (call, n)
         out = G.run_api(G.Prog(src, [], bl, 0), [v], N, modulus=p)
-        key = (form, n, v, bl)
+        key = (form, n, v, bl, src)
         cell = "%s|%s|%s" % (form, wcls, "in" if inr else "out")
         R.case(cell=cell, key=key)
         det = dict(src=src, inputs=[v], bl=bl, p=p, width=n)
@@ -340,6 +343,11 @@ def worker(job):
             R.count("unpack_supplied_bits_out_of_range")
             if out.exc is None:
                 R.violation("unpack-out-of-range-accepted", "secret bits (%s) encoding %d accepted by PackIntMod(%d).unpack" % (kind, enc, mod), **det)
+    N.settings_drift()
+    R.count("global_width_checks", 1)
+    if N.drift:
+        R.violation("global-width-changed-by-operation", "some packing / decomposition call left the global (bitlength, resolution) at %s, it was %s (%d such changes in this worker)" % (
+            N.drift[0][1], N.drift[0][0], len(N.drift)), seed=job["seed"])
     return R.export()
 
 
